@@ -442,3 +442,246 @@ theorem run_append (s : SwitchState) (a b : List Msg) :
         | ok r3 => rfl
 
 end Pox.SwitchReq
+
+/-! ### frame lemmas: what a message can change (used for the theorems over whole request histories) -/
+namespace Pox.SwitchReq
+open Pox.Generated.SwitchDispatch
+
+/-- everything of the switch state except the flow table and the packet buffers -/
+structure Fixed where
+  dpid : Nat
+  maxBuffers : Nat
+  maxEntries : Nat
+  caps : Nat
+  actionBits : Nat
+  portStats : List Nat
+  lookupCount : Nat
+  matchedCount : Nat
+  configFlags : Nat
+  missSendLen : Nat
+  hasSentHello : Bool
+  ports : List Port
+  deriving DecidableEq
+
+def fixedOf (s : SwitchState) : Fixed :=
+  { dpid := s.dpid, maxBuffers := s.maxBuffers, maxEntries := s.maxEntries, caps := s.caps, actionBits := s.actionBits,
+    portStats := s.portStats, lookupCount := s.lookupCount, matchedCount := s.matchedCount, configFlags := s.configFlags,
+    missSendLen := s.missSendLen, hasSentHello := s.hasSentHello, ports := s.ports }
+
+theorem bufferPacket_fixed (s : SwitchState) : fixedOf (bufferPacket s).1 = fixedOf s := by
+  unfold bufferPacket
+  repeat' (first | split | dsimp only)
+  all_goals rfl
+
+theorem outputPacket_fixed {s s' : SwitchState} {port : Nat} {o : List Reply} (h : outputPacket s port = .ok (s', o)) :
+    fixedOf s' = fixedOf s := by
+  unfold outputPacket at h
+  repeat' split at h
+  all_goals first
+    | (injection h with h; injection h with h1 _; subst h1; first | rfl | exact bufferPacket_fixed s)
+    | (cases h)
+
+theorem processActions_fixed (xid : Nat) (acts : List Act) {s s' : SwitchState} {o : List Reply}
+    (h : processActions xid s acts = .ok (s', o)) : fixedOf s' = fixedOf s := by
+  induction acts generalizing s o with
+  | nil =>
+    simp only [processActions] at h
+    injection h with h; injection h with h1 _; subst h1; rfl
+  | cons a rest ih =>
+    unfold processActions at h
+    cases hl : actionTable.lookup a.ty with
+    | none =>
+      rw [hl] at h; simp only at h
+      injection h with h; injection h with h1 _; subst h1; rfl
+    | some ah =>
+      rw [hl] at h
+      cases ah with
+      | output =>
+        simp only at h
+        cases ho : outputPacket s a.port with
+        | error e => rw [ho] at h; cases h
+        | ok r1 =>
+          obtain ⟨s1, o1⟩ := r1
+          rw [ho] at h; simp only at h
+          cases hp : processActions xid s1 rest with
+          | error e => rw [hp] at h; cases h
+          | ok r2 =>
+            obtain ⟨s2, o2⟩ := r2
+            rw [hp] at h; simp only at h
+            injection h with h; injection h with h1 _; subst h1
+            rw [ih hp, outputPacket_fixed ho]
+      | enqueue => simp only at h; cases h
+      | setVlanVid => exact ih h
+      | setVlanPcp => exact ih h
+      | stripVlan => exact ih h
+      | setDlSrc => exact ih h
+      | setDlDst => exact ih h
+      | setNwSrc => exact ih h
+      | setNwDst => exact ih h
+      | setNwTos => exact ih h
+      | setTpSrc => exact ih h
+      | setTpDst => exact ih h
+
+theorem processFromBuffer_fixed (xid : Nat) (acts : List Act) (id : Nat) {s s' : SwitchState} {o : List Reply}
+    (h : processFromBuffer xid s acts id = .ok (s', o)) : fixedOf s' = fixedOf s := by
+  unfold processFromBuffer at h
+  split at h
+  · injection h with h; injection h with h1 _; subst h1; rfl
+  split at h
+  · split at h
+    · cases hp : processActions xid s acts with
+      | error e => rw [hp] at h; cases h
+      | ok r =>
+        obtain ⟨s1, o1⟩ := r
+        rw [hp] at h; simp only at h
+        injection h with h; injection h with h1 _; subst h1
+        have h2 : fixedOf s1 = fixedOf s := processActions_fixed xid acts hp
+        exact h2
+    · injection h with h; injection h with h1 _; subst h1; rfl
+  · injection h with h; injection h with h1 _; subst h1; rfl
+
+theorem rxPacketOut_fixed {s s' : SwitchState} {xid : Nat} {b : Option Nat} {d : Bool} {acts : List Act} {o : List Reply}
+    (h : rxPacketOut s xid b d acts = .ok (s', o)) : fixedOf s' = fixedOf s := by
+  unfold rxPacketOut at h
+  split at h
+  · exact processActions_fixed xid acts h
+  · cases b with
+    | none => simp only at h; injection h with h; injection h with h1 _; subst h1; rfl
+    | some id => exact processFromBuffer_fixed xid acts id h
+
+theorem runFlowMod_fixed (h : FlowModH) (s : SwitchState) (xid command : Nat) (mk : MKey) (prio cookie flags idle hard outPort : Nat)
+    (acts : List Act) : fixedOf (runFlowMod h s xid command mk prio cookie flags idle hard outPort acts).1 = fixedOf s := by
+  have hadd : fixedOf (flowModAdd s xid command mk prio cookie flags idle hard acts).1 = fixedOf s := by
+    unfold flowModAdd
+    repeat' (first | split | dsimp only)
+    all_goals rfl
+  have hmod : ∀ st, fixedOf (flowModModify st s xid command mk prio cookie flags idle hard acts).1 = fixedOf s := by
+    intro st
+    unfold flowModModify
+    split
+    · rfl
+    · exact hadd
+  cases h with
+  | add => exact hadd
+  | modify => exact hmod false
+  | modifyStrict => exact hmod true
+  | delete => rfl
+  | deleteStrict => rfl
+
+theorem rxFlowMod_fixed {s s' : SwitchState} {xid command : Nat} {mk : MKey} {prio cookie flags idle hard outPort : Nat}
+    {b : Option Nat} {acts : List Act} {o : List Reply}
+    (h : rxFlowMod s xid command mk prio cookie flags idle hard outPort b acts = .ok (s', o)) : fixedOf s' = fixedOf s := by
+  unfold rxFlowMod at h
+  cases hl : flowModTable.lookup command with
+  | none => rw [hl] at h; simp only at h; injection h with h; injection h with h1 _; subst h1; rfl
+  | some hd =>
+    rw [hl] at h; simp only at h
+    cases b with
+    | none =>
+      simp only at h
+      injection h with h
+      have h2 := runFlowMod_fixed hd s xid command mk prio cookie flags idle hard outPort acts
+      rw [h] at h2
+      exact h2
+    | some id =>
+      simp only at h
+      cases hp : processFromBuffer xid (runFlowMod hd s xid command mk prio cookie flags idle hard outPort acts).1 acts id with
+      | error e => rw [hp] at h; cases h
+      | ok r =>
+        obtain ⟨s2, o2⟩ := r
+        rw [hp] at h; simp only at h
+        injection h with h; injection h with h1 _; subst h1
+        rw [processFromBuffer_fixed xid acts id hp]
+        exact runFlowMod_fixed hd s xid command mk prio cookie flags idle hard outPort acts
+
+/-- a statistics request changes nothing -/
+theorem rxStats_state {s s' : SwitchState} {xid : Nat} {req : StatsReq} {o : List Reply} (h : rxStats s xid req = .ok (s', o)) : s' = s := by
+  unfold rxStats at h
+  cases hl : statsTable.lookup req.stype with
+  | none => rw [hl] at h; simp only at h; injection h with h; injection h with h1 _; exact h1.symm
+  | some hd =>
+    rw [hl] at h; simp only at h
+    cases hr : runStats hd s xid req with
+    | error e => rw [hr] at h; cases h
+    | ok r =>
+      obtain ⟨errs, body⟩ := r
+      rw [hr] at h
+      cases body with
+      | none => simp only at h; injection h with h; injection h with h1 _; exact h1.symm
+      | some bd => simp only at h; injection h with h; injection h with h1 _; exact h1.symm
+
+/-- port number and hardware address of a port never change -/
+theorem setPortConfigBit_key (p : Port) (bit value : Nat) :
+    (setPortConfigBit p bit value).1.no = p.no ∧ (setPortConfigBit p bit value).1.hw = p.hw := by
+  unfold setPortConfigBit
+  repeat' (first | split | dsimp only)
+  all_goals exact ⟨rfl, rfl⟩
+
+theorem portModBits_key (mask config : Nat) (bits : List Nat) (p : Port) :
+    (portModBits mask config bits p).1.no = p.no ∧ (portModBits mask config bits p).1.hw = p.hw := by
+  induction bits generalizing p with
+  | nil => exact ⟨rfl, rfl⟩
+  | cons i rest ih =>
+    unfold portModBits
+    split
+    · have h1 := setPortConfigBit_key p (1 <<< i) (config &&& (1 <<< i))
+      have h2 := ih (setPortConfigBit p (1 <<< i) (config &&& (1 <<< i))).1
+      exact ⟨h2.1.trans h1.1, h2.2.trans h1.2⟩
+    · exact ih p
+
+/-- the identity of a port: number and hardware address -/
+def portKeys (s : SwitchState) : List (Nat × Nat) := s.ports.map fun p => (p.no, p.hw)
+
+/-- `self.ports` is a dict keyed by port number -/
+def PortsUnique (s : SwitchState) : Prop := (s.ports.map (·.no)).Nodup
+
+theorem eq_of_nodup_map {α β} {f : α → β} {l : List α} (h : (l.map f).Nodup) {x y : α} (hx : x ∈ l) (hy : y ∈ l)
+    (e : f x = f y) : x = y := by
+  induction l with
+  | nil => cases hx
+  | cons a r ih =>
+    rw [List.map_cons, List.nodup_cons] at h
+    rcases List.mem_cons.mp hx with rfl | hx' <;> rcases List.mem_cons.mp hy with rfl | hy'
+    · rfl
+    · exact absurd (List.mem_map.mpr ⟨y, hy', e.symm⟩) h.1
+    · exact absurd (List.mem_map.mpr ⟨x, hx', e⟩) h.1
+    · exact ih h.2 hx' hy'
+
+/-- `_rx_port_mod` touches only the config/state of ports: numbers, addresses, order and everything else stay -/
+theorem rxPortMod_frame (s : SwitchState) (xid portNo hw config mask : Nat) (hu : PortsUnique s) :
+    portKeys (rxPortMod s xid portNo hw config mask).1 = portKeys s ∧
+    { fixedOf (rxPortMod s xid portNo hw config mask).1 with ports := [] } = { fixedOf s with ports := [] } ∧
+    (rxPortMod s xid portNo hw config mask).1.table = s.table ∧ (rxPortMod s xid portNo hw config mask).1.buffers = s.buffers := by
+  unfold rxPortMod
+  cases hf : s.ports.find? (·.no == portNo) with
+  | none => exact ⟨rfl, rfl, rfl, rfl⟩
+  | some p =>
+    simp only
+    split
+    · exact ⟨rfl, rfl, rfl, rfl⟩
+    · refine ⟨?_, rfl, rfl, rfl⟩
+      have hp : p.no = portNo := by
+        have := List.find?_some hf
+        simpa using this
+      have hpm : p ∈ s.ports := List.mem_of_find?_eq_some hf
+      have hk := portModBits_key mask config (List.range 32) p
+      simp only [portKeys, List.map_map]
+      apply List.map_congr_left
+      intro q hq
+      simp only [Function.comp]
+      by_cases hqn : (q.no == portNo) = true
+      · rw [if_pos hqn]
+        have hqn' : q.no = portNo := by simpa using hqn
+        have : q = p := eq_of_nodup_map hu hq hpm (hqn'.trans hp.symm)
+        subst this
+        rw [hk.1, hk.2]
+      · rw [if_neg hqn]
+
+theorem rxPortMod_cfg (s : SwitchState) (xid portNo hw config mask : Nat) :
+    (rxPortMod s xid portNo hw config mask).1.configFlags = s.configFlags ∧
+    (rxPortMod s xid portNo hw config mask).1.missSendLen = s.missSendLen := by
+  unfold rxPortMod
+  repeat' (first | split | dsimp only)
+  all_goals exact ⟨rfl, rfl⟩
+
+end Pox.SwitchReq
